@@ -154,6 +154,7 @@ def run(coro_fn, *args, timeout_steps: int | None = None, **kw):
     """Run ``coro_fn(loop, *args)`` to completion on a fresh virtual loop with the clock at 0."""
     CLOCK.us = 0
     loop = VLoop()
+    loop.set_exception_handler(lambda lp, ctx: None)   # unretrieved task exceptions are the scenario's business
     asyncio.set_event_loop(loop)
     try:
         return loop.run_until_complete(coro_fn(loop, *args, **kw))
